@@ -193,7 +193,7 @@ def _target_sym(jx, t, x):
     return jx.add(jx.add(jx.neg(jx.mul(t[0], sq)), jx.mul(t[1], sm)), t[2])
 
 
-def ob_elbo(name, num_samples=2, stl_value=True, grads=True):
+def ob_elbo(name, num_samples=2, stl_value=True, grads=True, stl_ref=True):
     jax, jnp, jr, eqx = _env()
     from flowjax.train import losses as L
     from .. import jx
@@ -230,8 +230,9 @@ def ob_elbo(name, num_samples=2, stl_value=True, grads=True):
     set_path(None)
     st, m, where = _cmp(name, "elbo", ctx, pre, v0, jx.oarr_s(ref0))
     _done(out, f"C17/ElboLoss({name}, {N} samples) == mean_i(log q(x_i) - target(x_i)) with (x_i, log q(x_i)) = sample_and_log_prob(key)", st, where, replay_elbo, **kw)
-    st, m, where = _cmp(name, "elbo-stl", ctx, pre, v1, jx.oarr_s(ref1))
-    _done(out, f"C17/ElboLoss({name}, stick_the_landing) == mean_i(log_prob(x_i) - target(x_i)) with x_i = sample(key)", st, where, replay_elbo, **kw)
+    if stl_ref:
+        st, m, where = _cmp(name, "elbo-stl", ctx, pre, v1, jx.oarr_s(ref1))
+        _done(out, f"C17/ElboLoss({name}, stick_the_landing) == mean_i(log_prob(x_i) - target(x_i)) with x_i = sample(key)", st, where, replay_elbo, **kw)
     if stl_value:
         st, m, where = _cmp(name, "stl==plain", ctx, pre, v1, v0)
         _done(out, f"C17/ElboLoss({name}): value with stick_the_landing == value without, for every key and parameter value", st, where, replay_elbo, **kw)
@@ -571,7 +572,7 @@ def obligations(tier, seed):
     T.append(dict(name="elbo/coupling_flow", func="c17:ob_elbo", kwargs=dict(name="coupling_flow", num_samples=2, stl_value=False), cost=8))
     if tier != "quick":
         T.append(dict(name="elbo/Transformed(Normal,Affine)", func="c17:ob_elbo", kwargs=dict(name="Transformed(Normal,Affine)", num_samples=2, stl_value=False), cost=20))
-        T.append(dict(name="elbo/masked_autoregressive_flow", func="c17:ob_elbo", kwargs=dict(name="masked_autoregressive_flow", num_samples=2, stl_value=False, grads=False), cost=8))
+        T.append(dict(name="elbo/masked_autoregressive_flow", func="c17:ob_elbo", kwargs=dict(name="masked_autoregressive_flow", num_samples=2, stl_value=False, grads=False, stl_ref=False), cost=8))
     for b in ((2, 3, 4) if tier == "quick" else (2, 3, 4, 5)):
         for n in range(1, b):
             if b == 5 and n not in (1, 4):
